@@ -684,7 +684,14 @@ class Exec:
             if c is None: c = ("bad", st)
         cls._stmt_cache[st] = c
         return c
+    MAX_CALL_DEPTH = 1500          # nested MIR calls; the deepest legitimate nesting on the templates is a few hundred
     def run(self, f, args):
+        self.depth = getattr(self, "depth", 0) + 1
+        try:
+            if self.depth > self.MAX_CALL_DEPTH: raise RecursionError("more than %d nested calls (last: %s)" % (self.MAX_CALL_DEPTH, f.name))
+            return self._run(f, args)
+        finally: self.depth -= 1
+    def _run(self, f, args):
         fr = {}
         zst = getattr(f, "_zst", None)
         if zst is None:
